@@ -71,3 +71,25 @@ Theorem C06_table_without_columns :
     act 13 src loc r = ARRaise ESyntaxError.
 Proof. exact empty_table_rejected. Qed.
 Print Assumptions C06_table_without_columns.
+
+(* ---- at the level of documents ---- *)
+From PyDBML Require Import Tools PP Actions GenClasses GenGrammar Entry ContainerInv ContainerFull TableInv BuildInv BuildRules.
+
+(* Whatever else the document contains — any enums, other tables, indexes, references, groups, notes, in any order —
+   if two of its table blueprints have the same schema and name, the build never returns a database (side condition D36). *)
+Theorem C06_document_with_duplicate_table_never_builds :
+  forall s allow sq dq h0 h1 dd l1 bp1 l2 bp2 l3 nm,
+    WW h0 -> (forall t tb, h_table h0 t = Some tb -> NoDup (names_of tb)) -> Forall good_table_bp (ps_tables s) ->
+    ps_tables s = l1 ++ bp1 :: l2 ++ bp2 :: l3 -> bp_full bp1 = Some nm -> bp_full bp2 = Some nm ->
+    build_database s allow sq dq h0 <> (h1, Ok dd).
+Proof. exact build_database_rejects_duplicate_tables. Qed.
+Print Assumptions C06_document_with_duplicate_table_never_builds.
+
+Theorem C06_source_with_duplicate_table_never_parses :
+  forall source allow sq dq h0 h1 d st l1 bp1 l2 bp2 l3 nm,
+    WW h0 -> (forall t tb, h_table h0 t = Some tb -> NoDup (names_of tb)) ->
+    blueprints_of source allow h0 = (h0, Ok st) -> Forall good_table_bp (ps_tables st) ->
+    ps_tables st = l1 ++ bp1 :: l2 ++ bp2 :: l3 -> bp_full bp1 = Some nm -> bp_full bp2 = Some nm ->
+    parser_parse source allow sq dq h0 <> (h1, Ok d).
+Proof. exact parser_rejects_duplicate_tables. Qed.
+Print Assumptions C06_source_with_duplicate_table_never_parses.
